@@ -162,7 +162,13 @@ impl attohttpc::body::Body for CustomBody {
         }
         for w in &writes {
             // a single `write` call per slice (zero-length slices included): the sink accepts everything
-            let n = writer.write(w)?;
+            // (EINTR is retried, as `write_all` does)
+            let n = loop {
+                match writer.write(w) {
+                    Err(e) if e.kind() == std::io::ErrorKind::Interrupted => continue,
+                    r => break r?,
+                }
+            };
             if n < w.len() {
                 writer.write_all(&w[n..])?;
             }
@@ -612,7 +618,20 @@ fn finish<B: attohttpc::body::Body>(rb: attohttpc::RequestBuilder<B>, case: &Sen
             Some(Ok(Box::new(script) as Box<dyn verif_hooks::Transport>))
         }));
         verif_hooks::set_plain_tunnels(case.plain_tunnel);
+        // one case in three: every second (or fifth) write call of its connections is answered once with EINTR
+        // before it goes through — a signal arriving during write(2) changes nothing of what is sent (seed
+        // C15-seed13: a chunk whose size line is framed again when its vectored write is retried)
+        // (not where a real TLS handshake runs over the scripted connection: what the TLS library makes of EINTR
+        // is its own business)
+        let tls_over_script = case.proxy.https.is_some() && !case.plain_tunnel;
+        crate::script::set_write_intr_every(match (case.url.len() + case.method.len() * 2 + case.hops.len()) % 6 {
+            _ if tls_over_script => None,
+            0 => Some(2),
+            3 => Some(5),
+            _ => None,
+        });
         let res = catch_unwind(AssertUnwindSafe(|| prepared.send()));
+        crate::script::set_write_intr_every(None);
         verif_hooks::clear_dial_factory();
         crate::script::set_write_limit(usize::MAX);
         let mut tunnels = verif_hooks::take_tunnel_log().into_iter();
